@@ -18,13 +18,18 @@ EXTENDS Bytes
 \* Modes: errAtCall / shortWrite fail stickily; transientErr / transientShort fail ONE call (the first that does not fit)
 \* and take everything afterwards (a destination that recovers: a full pipe drained, a retried network write); budget
 \* never latches (each call fails exactly when it does not fit, so a later, smaller call is taken again).
+\* fullErr / transientFull: the first call that does not fit is TAKEN COMPLETELY and reported as failed all the same
+\* (n = len together with an error: legal for io.Writer - a chunked HTTP body whose closing CRLF fails, a file whose
+\* data reached the page cache and whose sync failed); afterwards sticky (fullErr) or recovered (transientFull).
+FullModes == {"fullErr", "transientFull"}
 DestWrite(st, len, k, mode) ==
   IF mode = "budget" THEN (IF st.acc + len <= k THEN [st |-> [st EXCEPT !.acc = st.acc + len], n |-> len, err |-> FALSE]
                            ELSE [st |-> [st EXCEPT !.failed = TRUE], n |-> 0, err |-> TRUE])
-  ELSE IF st.failed /\ mode \in {"transientErr", "transientShort"} THEN [st |-> [st EXCEPT !.acc = st.acc + len], n |-> len, err |-> FALSE]
+  ELSE IF st.failed /\ mode \in {"transientErr", "transientShort", "transientFull"} THEN [st |-> [st EXCEPT !.acc = st.acc + len], n |-> len, err |-> FALSE]
   ELSE IF st.failed THEN [st |-> st, n |-> 0, err |-> TRUE]
   ELSE IF st.acc + len <= k THEN [st |-> [st EXCEPT !.acc = st.acc + len], n |-> len, err |-> FALSE]
   ELSE IF mode \in {"errAtCall", "transientErr"} THEN [st |-> [st EXCEPT !.failed = TRUE], n |-> 0, err |-> TRUE]
+  ELSE IF mode \in FullModes THEN [st |-> [acc |-> st.acc + len, failed |-> TRUE], n |-> len, err |-> TRUE]
   ELSE [st |-> [acc |-> k, failed |-> TRUE], n |-> k - st.acc, err |-> TRUE]
 
 \* the logged write results are the destination's behaviour (sanity of the instrumented writer)
@@ -34,11 +39,20 @@ WritesFollowDest(ws, i, st, k, mode) ==
   ELSE LET r == DestWrite(st, ws[i].len, k, mode) IN
        ws[i].n = r.n /\ ws[i].err = r.err /\ WritesFollowDest(ws, i + 1, r.st, k, mode)
 
+\* number of bytes the destination had accepted when it FIRST reported a failure (-1: it never did)
+RECURSIVE AccAtFirstErr(_, _, _)
+AccAtFirstErr(ws, i, acc) == IF i > Len(ws) THEN -1 ELSE IF ws[i].err THEN acc + ws[i].n ELSE AccAtFirstErr(ws, i + 1, acc + ws[i].n)
+
 RunFailures(ev) ==
   (IF WritesFollowDest(ev.writes, 1, [acc |-> 0, failed |-> FALSE], ev.k, ev.mode) THEN {} ELSE {"instrumented writer log inconsistent"})
   \cup (IF ev.panic THEN {"panic"} ELSE {})
   \cup (IF IsPrefixB(ev.accepted, ev.O) THEN {} ELSE {"accepted bytes are not a prefix of the fault-free output"})
-  \cup (IF ev.k < Len(ev.O) /\ ~ev.reterr THEN {"success reported for a partial output"} ELSE {})
+  \cup (IF ev.mode \notin FullModes /\ ev.k < Len(ev.O) /\ ~ev.reterr THEN {"success reported for a partial output"} ELSE {})
+  \* a destination that takes the whole offending call: it "fails after accepting" AccAtFirstErr bytes; the statement
+  \* demands an error for every such point below the full output length (a failure reported together with the very
+  \* last byte is left to the serializer)
+  \cup (LET a == AccAtFirstErr(ev.writes, 1, 0) IN
+        IF ev.mode \in FullModes /\ a >= 0 /\ a < Len(ev.O) /\ ~ev.reterr THEN {"success reported although the destination failed below the full output length"} ELSE {})
   \cup (IF ev.k >= Len(ev.O) /\ (ev.reterr \/ ev.accepted # ev.O) THEN {"no-fault control run failed or is incomplete"} ELSE {})
   \cup (IF ev.count >= 0 /\ ev.count # Len(ev.accepted) THEN {"returned byte count differs from what the destination accepted"} ELSE {})
 
